@@ -31,7 +31,7 @@ FIPS_LN = [(1024, 160), (2048, 224), (2048, 256), (3072, 256)]
 # ---------------------------------------------------------------------------
 def plan(tier, seed):
     q = tier == "quick"
-    b = 32 if q else 420
+    b = 45 if q else 300
     specs = []
     for i in range(3 if q else 6):
         specs.append({"kind": "gen_rsa", "idx": i, "budget_s": b})
